@@ -161,6 +161,14 @@ def main(tier: str) -> int:
             model[k] = {"states": r.distinct, "transitions": r.generated}
         elif "Good" not in r.violated:
             env.machinery_failure(f"C20: with the refusal guard removed from the model ({k}) TLC finds no violation: the invariant is vacuous")
+    graph = {}
+    if tier == "thorough":
+        # every reachable state x every call of the small rejection universe on real Streams: a refused call leaves a failed stream and a valid prefix
+        from .. import writergraph as wg  # noqa: PLC0415
+
+        st_, _gst = wg.compare_slice(run, "c20-small", wg.slice_consts("c20-small"), None)
+        if st_ is not None:
+            graph["c20-small"] = st_
     cases, traces = [], []
     n_rejecting = 0
     distinct = set()
@@ -243,6 +251,6 @@ def main(tier: str) -> int:
                 "as a catch-and-continue loop on a real TripleStream/QuadStream; GraphStream is driven graph by graph over cause x slot x position. "
                 "distinct = (stream class, cause, slot, position of the rejection)",
         "samples": samples, "traces_validated_against_impl": len(cases),
-        "model": model, "states": sum(m["states"] for m in model.values()), "transitions": sum(m["transitions"] for m in model.values()),
+        "state_graph_comparison": graph, "model": model, "states": sum(m["states"] for m in model.values()), "transitions": sum(m["transitions"] for m in model.values()),
         "model_note": "exhaustive TLC: Good holds on the rejection universes with PoisonOnReject=TRUE, and TLC finds it violated with PoisonOnReject=FALSE (non-vacuity)",
     })
